@@ -12,12 +12,15 @@ func (c16Tag) HashBytes(b []byte) string { return "H(" + string(b) + ")" }
 // VerifC16Har: the HAR collector's body obfuscation for the request and the response body of
 // one transaction, in both orders, with exclusions addressed to either body.
 func VerifC16Har() {
-	names := []string{"name", "id"}
+	// targets: two top-level fields, every item of an array, and ONE item of the array
+	// written with a concrete index (JSONPath style, as in $.request.path_segments[1]):
+	// whatever the collector makes of the indexed form, it names item 0 only.
+	targets := []string{"name", "id", "items[].id", "items[0].id"}
 	var excl []string
 	reqEx, respEx := map[string]bool{}, map[string]bool{}
 	n := 1 + verifChoose("nExcl", 2)
 	for e := 0; e < n; e++ {
-		k := names[verifChoose(fmt.Sprintf("e%d_name", e), len(names))]
+		k := targets[verifChoose(fmt.Sprintf("e%d_name", e), len(targets))]
 		switch verifChoose(fmt.Sprintf("e%d_side", e), 3) {
 		case 0:
 			excl = append(excl, "$.request.body."+k)
@@ -30,8 +33,9 @@ func VerifC16Har() {
 		}
 	}
 	o := &apiStreamObfuscator{obfuscateEnabled: true, obfuscateExclusions: excl, obfuscator: obfuscation.Obfuscator{Hasher: c16Tag{}}}
-	body := `{"name":"bob","id":"42"}`
-	want := func(ex map[string]bool) string {
+	body := `{"name":"bob","id":"42","items":[{"id":"a1"},{"id":"a2"}]}`
+	// want returns the admissible outputs (two when only item 0 is named by index)
+	want := func(ex map[string]bool) []string {
 		a, b := `"H(bob)"`, `"H(42)"`
 		if ex["name"] {
 			a = `"bob"`
@@ -39,7 +43,24 @@ func VerifC16Har() {
 		if ex["id"] {
 			b = `"42"`
 		}
-		return `{"name":` + a + `,"id":` + b + `}`
+		mk := func(i0, i1 string) string {
+			return `{"name":` + a + `,"id":` + b + `,"items":[{"id":` + i0 + `},{"id":` + i1 + `}]}`
+		}
+		if ex["items[].id"] {
+			return []string{mk(`"a1"`, `"a2"`)}
+		}
+		if ex["items[0].id"] {
+			return []string{mk(`"H(a1)"`, `"H(a2)"`), mk(`"a1"`, `"H(a2)"`)}
+		}
+		return []string{mk(`"H(a1)"`, `"H(a2)"`)}
+	}
+	oneOf := func(got string, ws []string) bool {
+		for _, w := range ws {
+			if got == w {
+				return true
+			}
+		}
+		return false
 	}
 	var gotReq, gotResp string
 	if verifChoose("order", 2) == 0 {
@@ -50,6 +71,12 @@ func VerifC16Har() {
 		gotReq = o.ObfuscateRequestBody(body)
 	}
 	verifReach("done")
-	verifAssert(gotReq == want(reqEx), "C16 HAR: the request body keeps exactly the values excluded by $.request.body paths")
-	verifAssert(gotResp == want(respEx), "C16 HAR: the response body keeps exactly the values excluded by $.response.body paths")
+	if !oneOf(gotReq, want(reqEx)) {
+		verifNote("request body out=" + gotReq)
+	}
+	if !oneOf(gotResp, want(respEx)) {
+		verifNote("response body out=" + gotResp)
+	}
+	verifAssert(oneOf(gotReq, want(reqEx)), "C16 HAR: the request body keeps exactly the values excluded by $.request.body paths")
+	verifAssert(oneOf(gotResp, want(respEx)), "C16 HAR: the response body keeps exactly the values excluded by $.response.body paths")
 }
